@@ -94,4 +94,48 @@ def evalTreeList (A : Alg V) (ρ : Env V) : List CRoutine → List (NVal V)
   | c :: cs => evalTree A ρ c :: evalTreeList A ρ cs
 end
 
+/-! ### executable side conditions of the theorems (so that the driver can evaluate them on every generated routine) -/
+
+open Expr in
+/-- sequences whose closed forms are written without an iterator (constant, arithmetic, geometric) and whose parameters
+    contain none: the repetition wrappers covered by the refinement theorem -/
+def plainSeqB : Seq → Bool
+  | .constant m => (binders m).isEmpty
+  | .arithmetic i d => (binders i).isEmpty && (binders d).isEmpty
+  | .geometric r => (binders r).isEmpty
+  | _ => false
+
+def plainRepB : Option Repetition → Bool
+  | none => true
+  | some rp => (binders rp.count).isEmpty && plainSeqB rp.seq
+
+mutual
+def plainB : Routine → Bool
+  | ⟨_, _, _, lvs, _, ps, rs, _, rep, _, ch, _⟩ =>
+    lvs.all (fun kv => (binders kv.2).isEmpty) && ps.all (fun p => (binders p.size).isEmpty) &&
+    rs.all (fun r => (binders r.value).isEmpty) && plainRepB rep && plainListB ch
+def plainListB : List Routine → Bool
+  | [] => true
+  | c :: cs => plainB c && plainListB cs
+end
+
+/-- the one-point interpretation: every operation is total; `sum_over`/`prod_over` read their body once -/
+def unitAlg : Alg Unit :=
+  { lit := fun _ => some (), neg := fun _ => some (), bin := fun _ _ _ => some (), fn := fun _ _ => some (),
+    big := fun _ _ _ f => f 0 }
+
+/-- exactly the names of `G` are given -/
+def envOf (G : List String) : Env Unit := fun x => if x ∈ G then some () else none
+
+
+mutual
+/-- every port size and resource value of every node of the reading is defined -/
+def NVal.allDefined {V : Type} : NVal V → Bool
+  | ⟨_, ps, rs, ch⟩ => ps.all (fun p => p.2.2.isSome) && rs.all (fun r => r.2.2.isSome) && NVal.allDefinedList ch
+def NVal.allDefinedList {V : Type} : List (NVal V) → Bool
+  | [] => true
+  | c :: cs => c.allDefined && NVal.allDefinedList cs
+end
+
+
 end Bartiq
